@@ -181,6 +181,13 @@ theorem doktorov_position_counterexample :
         * Matrix.fromBlocks U1 0 0 U1).toBlocks₁₁ = U2 * Matrix.diagonal σ * U1 :=
   doktorov_position_fails
 
+/-- … and no repair can keep both conventions the existing tests pin (`U₂ e^{r} U₁ = J` for the output of
+`gbs_params`, `Sgate(r)` in `VibronicTransition`): the position block equals `J` as well only without squeezing -/
+theorem doktorov_no_compatible_parameters {n : Type} [Fintype n] [DecidableEq n] (U1 U2 : Matrix n n ℝ) (σ σ' : n → ℝ)
+    (hσ : ∀ i, σ i * σ' i = 1) (h1 : U1 * U1.transpose = 1) (h2 : U2.transpose * U2 = 1)
+    (h : U2 * Matrix.diagonal σ' * U1 = U2 * Matrix.diagonal σ * U1) : ∀ i, σ i * σ i = 1 :=
+  doktorov_both_blocks U1 U2 σ σ' hσ h1 h2 h
+
 /-! ## bookkeeping -/
 
 /-- **sample store** (`get_A_init_samples`), for every history: the store only grows by appending, the result is the
